@@ -1,14 +1,13 @@
 """C17 — plain-HTTP forwarding: the real into_forwarded pair relayed by the real DuplexPipe between a scripted client and a scripted origin."""
 from run_check import Case
 from vlib import line, untok
-from props.wirecases import gen_wire_cases, judge_wire
 
 TRUSTED_BASE = [
     "Coq 8.16.1 kernel (coqc; coqchk in the thorough tier)",
     "Print Assumptions of every theorem in coq/Properties/C17.v: closed under the global context (the chunk-size parser hypotheses are section variables, discharged for the model's parser by model_chunk_size_parser_ok)",
     "hand-written model coq/Model/Forwarded.v of ForwardedStreamSink's body states (non-encoded, chunk prefix, chunk data, chunk suffix) driven by SimplexPipe's write / wait_writable / write-the-rest loop; httparse::parse_chunk_size is a parameter assumed stable under extension and minimal",
     "translator tools/gen_tables.py -> Generated/ForwardedFacts.v (shape of each body-state handler: accepted bytes counted, state kept, interim-response leftover, body-mode selection)",
-    "the response head (httparse::Response), request serialization and hop-by-hop filtering are not in the Coq model: they are checked by the differential run against the independent oracle in this file",
+    "the response head parser (httparse::Response) is not in the Coq model: it is checked by the differential run against the independent oracle in this file; request serialization (Model/FwdRequest.v, read back by Spec/Rfc9112.v) and the response-field filter (Model/HopByHop.v: ASCII trimming and lower-casing) are models of their own, tied by the facts FWD_SERIALIZE_REQUEST_AS_MODELLED / FWD_HOP_BY_HOP_WHEREVER_THEY_STAND and by the exchanges (request head byte for byte through the door; origin fields in shuffled order)",
     "extraction + driver.ml, cross-checked against vm_compute; harness door verif::forwarded (mirror request / respond objects, real DuplexPipe, paused clock)",
 ]
 ASSUMPTIONS = [
@@ -98,7 +97,10 @@ def gen_cases(rng, ctx):
             req_hs.append(("proxy-connection", "keep-alive"))
         if rng.chance(1, 3):
             req_hs.append(("user-agent", "ua/1.0"))
-        if version == 1 and rng.chance(1, 2):
+        if not front and rng.chance(1, 4):
+            # a Host field the client chose: it is rewritten in place to the request's authority
+            req_hs.insert(rng.below(len(req_hs) + 1), ("host", "elsewhere.test"))
+        elif version == 1 and rng.chance(1, 2):
             req_hs.append(("host", host))
         body = b""
         declared = None
@@ -210,7 +212,12 @@ def gen_cases(rng, ctx):
             fwd_body = body
         else:
             fwd_body = b""
-        cases.append(Case(impl, model, kind="%s%s:h%d:%s" % ("endpoint:" if front else "", mode if not bodiless else "bodiless", version, style),
+        req_spec = None
+        if not front:
+            req_line = line("c17_request", [[1, 1 if version >= 2 else 0], list(method.encode()), list(path.encode()), list(host.encode()),
+                                            flat([(a, b) for a, b in req_hs])])
+            req_spec = (lambda out, l=req_line: l)
+        cases.append(Case(impl, model, spec=req_spec, kind="%s%s:h%d:%s" % ("endpoint:" if front else "", mode if not bodiless else "bodiless", version, style),
                           nontrivial=(style != "whole" or bool(acc)),
                           meta={"method": method, "path": path, "exp_req_hs": exp_req_hs, "fwd_body": list(fwd_body), "declared": declared,
                                 "version": version, "status": status, "interim": interim, "exp_hs": exp_hs, "exp_body": list(exp_body),
@@ -227,8 +234,6 @@ def gen_cases(rng, ctx):
                           meta={"method": "GET", "path": "/p", "exp_req_hs": sorted([("accept", "*/*"), ("host", "@A")]), "fwd_body": [], "declared": None,
                                 "version": 3, "status": 200, "interim": [], "exp_hs": [("content-length", "9000")], "exp_body": list(body),
                                 "complete": True, "trailing": False, "sizes": [len(head), p_, "..."], "acc": [], "mode": "cl"}))
-    # the request head written towards the origin (encode_request) through the door
-    cases += gen_wire_cases(rng, 60 if thorough else 20, responses=False)
     return cases
 
 
@@ -254,8 +259,6 @@ def known_finding(case, kind, msg, known):
 
 
 def judge(case, impl, model, spec, ctx):
-    if case.meta and case.meta.get("wire"):
-        return judge_wire(case, impl, model, spec)
     if impl == "999":
         return [("violation", "the forwarded stream panicked")]
     t = impl.split()
@@ -289,6 +292,12 @@ def judge(case, impl, model, spec, ctx):
         out.append(("violation", "%s: forwarded request body has %d bytes, the client sent %d" % (what, len(fwd_body), len(m["fwd_body"]))))
     elif fwd_body and m["declared"] is None:
         out.append(("violation", "%s: a request body of %d bytes is forwarded without any body framing (no Content-Length, no chunking)" % (what, len(fwd_body))))
+    if not out and spec and he >= 0:
+        st = spec.split()
+        if st[0] == "997":
+            out.append(("disagree", "%s: the model refuses this request, the code forwarded %r" % (what, origin[:he])))
+        elif bytes(untok(st[0])) != origin[:he + 4]:
+            out.append(("disagree", "%s: request head forwarded as %r, the model of serialize_request writes %r" % (what, origin[:he + 4], bytes(untok(st[0])))))
     # response as the client saw it
     if not out:
         if status != m["status"]:
